@@ -68,6 +68,7 @@ type Reply struct {
 type RunSummary struct {
 	Ops, FgPoints, ForcedMoves, FreeMoves, Timeouts, LockWaitsBG, LockWaitsFG int
 	Broken, Digest                                                            string
+	FailedStep, Failure                                                       string
 }
 
 type tail struct {
